@@ -61,8 +61,20 @@ def straightline_env(stmts, upto=None, env=None):
     for s in stmts:
         if s is upto:
             break
-        if isinstance(s, ast.Assign) and len(s.targets) == 1 and isinstance(s.targets[0], ast.Name):
-            env[s.targets[0].id] = inline(s.value, env)
+        if isinstance(s, ast.Assign) and all(isinstance(t, ast.Name) for t in s.targets):
+            v = inline(s.value, env)          # `a = b = expr` binds every target
+            for t in s.targets:
+                env[t.id] = v
+        elif isinstance(s, ast.Assign) and len(s.targets) == 1 and isinstance(s.targets[0], ast.Tuple) and \
+                isinstance(s.value, ast.Tuple) and len(s.value.elts) == len(s.targets[0].elts):
+            vals = [inline(v, env) for v in s.value.elts]
+            for t, v in zip(s.targets[0].elts, vals):
+                if isinstance(t, ast.Name):
+                    env[t.id] = v
+        elif isinstance(s, ast.Assign) and len(s.targets) == 1 and isinstance(s.targets[0], ast.Tuple):
+            for t in s.targets[0].elts:
+                if isinstance(t, ast.Name):
+                    env.pop(t.id, None)
         elif isinstance(s, ast.AugAssign) and isinstance(s.target, ast.Name):
             env.pop(s.target.id, None)
     return env
